@@ -185,8 +185,8 @@ def run(tier):
     try:
         eng, obl = e3_kernel(out)
         extra = {"e3_obligations": obl.total, "e3_discharged": obl.discharged, "e3_functions": obl.functions, "e3_solver_time_s": round(obl.solver_time, 2)}
-    except mx.Inconclusive as e:
-        out.inconclusive.append("fn=? reason=%s" % e)
+    except Exception as e:  # noqa: an MIR shape the executor cannot follow is INCONCLUSIVE, the E1 part still runs
+        out.inconclusive.append("fn=? reason=%s: %s" % (type(e).__name__, str(e)[:200]))
         extra = {"e3_obligations": 0}
     return e1.finish(
         PID, tier, progs, t0, outcome=out,
